@@ -85,6 +85,20 @@ def _c_alias(mod):
     return '_C'
 
 
+def _is_flag_of_own_treespec(fn, expr, opt):
+    """expr is `<T>.<opt>` where T is the treespec returned by a flatten call of this function
+    that was given the function's own <opt>"""
+    if not (isinstance(expr, ast.Attribute) and expr.attr == opt and isinstance(expr.value, ast.Name)):
+        return False
+    for s_ in fn.body:
+        if isinstance(s_, ast.Assign) and isinstance(s_.value, ast.Call) and \
+                (call_name(s_.value) or '').startswith('_C.flatten') and \
+                isinstance(s_.targets[0], ast.Tuple) and is_name(s_.targets[0].elts[-1], expr.value.id):
+            return any(is_name(a, opt) for a in s_.value.args) or \
+                any(k.arg == opt and is_name(k.value, opt) for k in s_.value.keywords)
+    return False
+
+
 @rule('F1', floor=60, title='is_leaf / none_is_leaf / namespace are forwarded unchanged to every callee that takes them')
 def f1(ctx):
     pkg = ctx.py()
@@ -139,6 +153,12 @@ def f1(ctx):
                     site = '%s->%s/%s' % (qual, callee_label, o)
                     got = passed.get(o)
                     ok = got is not None and is_name(got, o)
+                    if not ok and o == 'none_is_leaf' and got is not None and \
+                            _is_flag_of_own_treespec(fn, got, o):
+                        # <treespec>.none_is_leaf of the treespec this function just obtained by
+                        # flattening with its own none_is_leaf is that flag (M5); the same does
+                        # not hold for the namespace, which a treespec records only if it was used
+                        ok = True
                     if not ok and (qual, callee_label, o) in F1_EXCEPTIONS:
                         ctx.ok(site, '%s: accepted exception - %s'
                                % (qual, F1_EXCEPTIONS[(qual, callee_label, o)]), mod.loc(c))
